@@ -162,7 +162,7 @@ func ruleBackendSaveCallers(c *eng.Ctx) {
 		key := c.P.FnName(s.Fn) + "→Backend.Save"
 		switch {
 		case pkg == pkgRepo:
-			why, ok := repoSites[fname]
+			why, ok := classifiedSite(c, root, repoSites)
 			c.Check(ok, rule, key, s.Call.Pos(), "Save site in package repository is one of the classified savers: %s", why)
 		case strings.HasPrefix(pkg, pkgBackend+"/mock") || strings.HasPrefix(pkg, pkgBackend+"/test"):
 			c.Ok(rule, key, s.Call.Pos(), "backend test-suite helper package %s (not linked into restic)", pkg)
@@ -175,7 +175,7 @@ func ruleBackendSaveCallers(c *eng.Ctx) {
 				if prm, isP := r.(*ssa.Parameter); isP && prm.Parent() == root {
 					hOK = true
 				}
-				if fv, isFV := r.(*ssa.FreeVar); isFV && fv.Name() == "h" {
+				if fv, isFV := r.(*ssa.FreeVar); isFV && eng.LogicalName(fv) == "h" {
 					hOK = true
 				}
 			}
